@@ -57,7 +57,10 @@ def gen_ptext(R):
         return _word(R).strip() + R.choice([')', '>'])        # half-bracketed (close)
     if k < 0.90:
         return _word(R, 3) + ' (' + _word(R, 4) + ') ' + _word(R, 2)   # inner brackets
-    if k < 0.95:
+    if k < 0.93:
+        o, c = R.choice(['()', '<>'])
+        return o + _word(R, 4).strip() + R.choice(['\n', '\n ', ' \n\t']) + _word(R, 5).strip() + c      # note spanning lines
+    if k < 0.96:
         return '  ' + R.choice(['(', '<']) + _word(R, 4).strip() + R.choice([')', '>']) + ' \n'
     return R.choice(['(', '<']) + _word(R, 3) + R.choice(['>', ')'])   # mismatched pair kinds
 
@@ -116,7 +119,7 @@ class Gen:
             pl.append(N('studioCommands', N('studioCommand', T('text', note), type='note')))
         if R.random() < 0.3:
             pl.append(self.gen_other(1))
-        ch = [T('mosSchema', schema), N('mosPayload', *pl)]
+        ch = [T('mosSchema', schema), N('mosPayload', *pl)] if schema is not None else [N('mosPayload', *pl)]
         if R.random() < 0.3:
             ch.insert(0, T('mosScope', R.choice(['PLAYLIST', 'OBJECT', 'STORY'])))
         return N('mosExternalMetadata', *ch)
@@ -209,7 +212,12 @@ class Gen:
     def gen_meta(self, tag=None):
         R = self.R
         tag = tag or R.choice(['roChannel', 'roEdDur', 'roTrigger', 'macroRoIn', 'macroRoOut', 'roCustom'])
-        return T(tag, gen_text(R, self.rich))
+        m = T(tag, gen_text(R, self.rich) if R.random() < 0.9 else '')
+        if R.random() < 0.3:
+            m[1][R.choice(['a', 'type', 'lang'])] = _word(R, R.randint(1, 5)).strip() or 'x'
+        if R.random() < 0.08:
+            m[4].append(self.gen_other(1))
+        return m
 
     def gen_ro_content(self, n_stories):
         """children of a roCreate / roReplace element"""
@@ -226,7 +234,7 @@ class Gen:
             head.append(self.gen_meta('roEdDur'))
         if R.random() < 0.3:
             head.append(self.gen_meta('roTrigger'))
-        for sch in R.sample(['http://ro/a', 'http://ro/b', 'http://ro/c'], R.choice([0, 0, 1, 2])):
+        for sch in R.sample(['http://ro/a', 'http://ro/b', 'http://ro/c', None], R.choice([0, 0, 1, 2])):
             head.append(self.gen_extmeta(sch))
         if R.random() < 0.3:
             R.shuffle(head)
@@ -604,6 +612,14 @@ class Ncs(Gen):
             i = R.randint(1, lo) if R.random() < 0.4 else lo
             j = R.randint(hi, len(ch)) if R.random() < 0.4 else hi
             op['body_span'] = [i, j]
+            if R.random() < 0.12:
+                # storyBody first: the story's head (storyID, slug, metadata) follows the body
+                head = [c for c in ch[:lo]]
+                st[4] = ch[lo:hi] + head + ch[hi:]
+                op['body_span'] = [0, hi - lo]
+                op['roid_pos'] = R.randint(1, 1 + len(head))
+            elif R.random() < 0.2:
+                op['roid_pos'] = R.randint(0, len(ch) - (j - i) + 1)
             if entry:
                 entry[1] = _iids(st)
         elif t in ('ItemInsert', 'EAItemInsert'):
@@ -681,7 +697,7 @@ class Ncs(Gen):
                     pay.append(T(tg, self.gen_stamp() if R.random() < 0.8 else ''))
                 else:
                     pay.append(self.gen_meta(tg))
-            for sch in R.sample(['http://ro/a', 'http://ro/b', 'http://ro/c', 'http://ro/d'], R.choice([0, 0, 1, 1, 2])):
+            for sch in R.sample(['http://ro/a', 'http://ro/b', 'http://ro/c', 'http://ro/d', None], R.choice([0, 0, 1, 1, 2])):
                 pay.append(self.gen_extmeta(sch))
             if R.random() < 0.3:
                 R.shuffle(pay)
